@@ -238,25 +238,39 @@ impl Entities {
     ) -> Result<Self> {
         let checker = schema.map(|schema| EntitySchemaConformanceChecker::new(schema, extensions));
         let mut entities_touched: HashSet<EntityUID> = HashSet::new();
-        for entity in collection.into_iter() {
-            if let Some(checker) = checker.as_ref() {
-                checker.validate_entity(&entity)?;
+        let collection: Vec<Arc<Entity>> = collection.into_iter().collect();
+        if let Some(checker) = checker.as_ref() {
+            for entity in &collection {
+                checker.validate_entity(entity)?;
             }
-            let uid = entity.uid().clone();
-            // If overwriting an existing entity, strip stale TC edges from its descendants
-            if let Some(old_entity) = self.entities.get(&uid) {
-                let old_ancestors: HashSet<EntityUID> = old_entity.ancestors().cloned().collect();
-                for other in self.entities.values_mut() {
-                    if other.uid() != &uid && other.is_descendant_of(&uid) {
-                        entities_touched.insert(other.uid().clone());
-                        Arc::make_mut(other).remove_indirect_ancestor(&uid);
-                        for ancestor_uid in &old_ancestors {
-                            Arc::make_mut(other).remove_indirect_ancestor(ancestor_uid);
-                        }
-                    }
+        }
+        // When overwriting existing entities, strip stale TC edges from their descendants.
+        // Both the descendant test and the old ancestor sets are read from the cached
+        // closure, so this is done for the whole batch before any entity is stripped or
+        // replaced: once some edges have been stripped the closure is no longer reliable.
+        let overwritten: Vec<(EntityUID, HashSet<EntityUID>)> = collection
+            .iter()
+            .filter_map(|entity| {
+                self.entities
+                    .get(entity.uid())
+                    .map(|old| (entity.uid().clone(), old.ancestors().cloned().collect()))
+            })
+            .collect();
+        for other in self.entities.values_mut() {
+            let stale: HashSet<&EntityUID> = overwritten
+                .iter()
+                .filter(|(uid, _)| other.uid() != uid && other.is_descendant_of(uid))
+                .flat_map(|(uid, old_ancestors)| std::iter::once(uid).chain(old_ancestors))
+                .collect();
+            if !stale.is_empty() {
+                entities_touched.insert(other.uid().clone());
+                for ancestor_uid in stale {
+                    Arc::make_mut(other).remove_indirect_ancestor(ancestor_uid);
                 }
             }
-            entities_touched.insert(uid);
+        }
+        for entity in collection {
+            entities_touched.insert(entity.uid().clone());
             update_entity_map(&mut self.entities, entity, true)?;
         }
         match tc_computation {
